@@ -9,6 +9,7 @@ use crate::out::Out;
 use crate::util::json::J;
 use crate::util::rng::{mix, Rng};
 use crate::Args;
+#[allow(unused_imports)]
 use rarena_allocator::{sync, unsync, Allocator, ArenaPosition, Buffer, BytesMut, BytesRefMut, Freelist, Options};
 
 #[derive(Clone, Copy, Debug, PartialEq, Eq)]
